@@ -1,11 +1,18 @@
+import re
+
+
 class SeismicZfpVersion:
     def __init__(self, arg):
         if isinstance(arg, str):
-            version_numbers_tuple = tuple(part for part in arg.replace('rc', '.rc').split("."))
-            self.major = int(version_numbers_tuple[0])
-            self.minor = int(version_numbers_tuple[1])
-            self.patch = int(version_numbers_tuple[2])
-            self.changes_exist = len(version_numbers_tuple) > 3
+            # Accept everything setuptools_scm emits: "X.Y.Z", "X.Y.ZrcN", "X.Y.Z.devN+gHASH[.dDATE]",
+            # "X.Y.Z+dDATE" and, for untagged checkouts, "X.Y.devN+gHASH" (no patch number).
+            match = re.match(r'^(\d+)\.(\d+)(?:\.(\d+))?(.*)$', arg)
+            if match is None:
+                raise ValueError(f"Cannot parse version string '{arg}'")
+            self.major = int(match.group(1))
+            self.minor = int(match.group(2))
+            self.patch = int(match.group(3)) if match.group(3) is not None else 0
+            self.changes_exist = match.group(4) != ''
         elif isinstance(arg, int):
             self.major = arg//(1024*2048)
             self.minor = (arg - self.major*1024*2048) // 2048
